@@ -80,8 +80,11 @@ def run(chk, driver, tier):
                          "1000-01-01..9999-12-31 (two-digit-year parts 2001..2098); thorough additionally renders every date of 2001..2099 through every calendar part; "
                          "non-trivial = distinct (pattern, state)")
     seen53 = None
+    tie_ops = []
     for _ in range(n):
         case, verdict, region = roundtrip(rng)
+        if len(tie_ops) < n // 2:
+            tie_ops.append({"op": "ast_tie", "pattern": case["pattern"], "vinfo": projgen.vinfo_of_state(case["state"])})
         if verdict and region in known:
             seen53 = case
         chk.count("ok" if not verdict else "bad")
@@ -115,6 +118,15 @@ def run(chk, driver, tier):
     # correspondence: format / parse ops on grammar patterns (shared with C05)
     import props.c05 as c05
     c05.corr_filter(chk, [o for o in c05.corr_ops(rng, n // 3) if o["op"] in ("format", "parse")], driver)
+    # model-internal tie: the pattern TREE (Model/PatAst.lean, where the composition theorem lives) and the string pipeline
+    # (the faithful model of the code) must agree on every generated pattern: same regex, same rendering
+    want = {"tokenized": True, "compile_eq": True, "render_eq": True}
+    for o, got in zip(tie_ops, driver.run(tie_ops)):
+        chk.evaluations += 1
+        if got != want:
+            chk.disagreements.append({"op": o, "impl": want, "model": got})
+        else:
+            chk.count("agree:ast_tie")
     lines = []
     if "F-C02-week53" in known and seen53:
         lines.append("F-C02-week53: %s (witness: %s)" % (known["F-C02-week53"]["summary"][:160], {k: seen53[k] for k in list(seen53)[:3]}))
